@@ -46,6 +46,7 @@ KEY_ADDR = "AssertionError@tensor.set_address_for_tens:stale-address-of-memoised
 KEY_WCACHE = "stale-CompressedWeightCache-hit:value_id-from-create_equivalence_id"
 KEY_DUP = "writer-tensor-order:duplicate-tensor-names-tie-broken-by-set-iteration"
 KEY_DEBUGDB = "DebugDatabase-not-cleared-by-main"
+KEY_GREEDY = "greedy-allocation-order:equal-live-ranges-tie-broken-by-set-iteration"
 
 # summary CSV columns that are NOT compared: constant label, and the network name (derived from the file name)
 CSV_SKIP = ("experiment", "network")
@@ -119,9 +120,28 @@ class Instr:
                 return orig_set(cls, tens_id, mem_type, address)
 
             tam.set_address_for_tens = classmethod(set_)
+        self.greedy_ties = 0
+        try:
+            from ethosu.vela import greedy_allocation as ga
+
+            orig_alloc = ga.GreedyAllocator.allocate_live_ranges
+
+            def alloc(self_, alignment):
+                seen = {}
+                for lr in self_.live_ranges.lrs:
+                    k = (lr.start_time, lr.end_time, lr.size, lr.name)
+                    seen[k] = seen.get(k, 0) + 1
+                if any(v > 1 for v in seen.values()):
+                    self.greedy_ties += 1
+                return orig_alloc(self_, alignment)
+
+            ga.GreedyAllocator.allocate_live_ranges = alloc
+        except Exception:
+            pass
 
     def begin_step(self):
         self.stale_hits, self.stale_addr = [], []
+        self.greedy_ties = 0
         cw = getattr(self.wc, "CompressedWeightCache", None)
         cache = getattr(cw, "cache", None)
         self.stale_tensors = {id(t) for t in cache.values()} if isinstance(cache, dict) else set()
@@ -193,7 +213,7 @@ def run_step(step, instr, nets_cache):
         "digest": hashlib.sha256(res.out_model).hexdigest() if res.out_model else "-",
         "figures": figures_of(res.csv) if step["entry"] == "main" else None,
         "debugdb": dbg,
-        "stale_hits": list(instr.stale_hits), "stale_addr": list(instr.stale_addr),
+        "stale_hits": list(instr.stale_hits), "stale_addr": list(instr.stale_addr), "greedy_ties": instr.greedy_ties,
         "dupnames": detnets.has_duplicate_names(net),
         "src_ops": [o.kind for o in net.ops],
         "model": res.out_model if step.get("keep_model") else None,
@@ -271,7 +291,7 @@ def _cli_job(job):
             st, diag = "vela-error:" + hashlib.sha256(msg.encode()).hexdigest()[:10], msg[:200]
         return {"status": st, "diag": diag, "size": len(model) if model else 0,
                 "digest": hashlib.sha256(model).hexdigest() if model else "-", "figures": figures_of(csvt),
-                "debugdb": None, "stale_hits": [], "stale_addr": [], "dupnames": detnets.has_duplicate_names(net),
+                "debugdb": None, "stale_hits": [], "stale_addr": [], "greedy_ties": 0, "dupnames": detnets.has_duplicate_names(net),
                 "src_ops": [o.kind for o in net.ops], "model": None, "tb": r.stderr[-500:]}
     finally:
         shutil.rmtree(d, ignore_errors=True)
@@ -419,7 +439,78 @@ def classify(ref, obs):
                 return KEY_DUP
         except Exception:
             return None
+    if obs.get("greedy_ties") and ref["status"] == "ok" and obs["status"] == "ok" and ref["size"] == obs["size"]:
+        return KEY_GREEDY
     return None
+
+
+# ------------------------------------------------------------------------------------------------
+# the writer's sort expression (text taken from the tree under test) against the Lean model `emitOrder`
+
+class _FakeTensor:
+    def __init__(self, name, pos):
+        self.name, self.pos = name, pos
+
+    def __lt__(self, other):            # the real Tensor orders by equivalence_id (a random uuid)
+        raise TypeError("sort fell through to comparing tensors")
+
+
+def writer_sort_correspondence(ck, info):
+    exprs = [e for e in info["writer_sorts"] if "tensor_set" in e and "tens.name" in e]
+    if len(exprs) != 1:
+        ck.violation("tflite_writer no longer sorts the tensor set by name before emitting (expected one sorted(...) over tensor_set)",
+                     {"correspondence": "writer_sorts table vs Model/Caches.emitOrder", "found": info["writer_sorts"]}, found_input=False)
+        return 0
+    expr = exprs[0]
+    rng = ck.rng
+    cases, lines = [], []
+    for _ in range(400 if not ck.thorough else 4000):
+        n = rng.choice([0, 1, 2, 2, 3, 3, 4, 5, 6, 8, 12])
+        keys = [rng.randint(0, rng.choice([1, 2, 4, 20])) for _ in range(n)]
+        cases.append(keys)
+        lines.append("emitorder " + " ".join(map(str, keys)))
+    outs = ck.model(lines, parallel=False)
+    bad = None
+    for keys, out in zip(cases, outs):
+        tensor_set = [_FakeTensor(f"t{k:04d}", i) for i, k in enumerate(keys)]
+        try:
+            got = [t.pos for (_n, _i, t) in eval(expr, {"sorted": sorted, "enumerate": enumerate, "set": set}, {"tensor_set": tensor_set})]
+        except Exception as e:  # noqa: B902
+            got = "error:" + type(e).__name__
+        want = [int(x) for x in out.split()] if out else []
+        ck.count("writer_sort_cases")
+        if len(set(keys)) < len(keys):
+            ck.count("writer_sort_cases_with_duplicate_names")
+        if got != want and bad is None:
+            bad = (keys, got, want)
+    if bad is not None:
+        # failing-input search: does the real expression give different name sequences for two iteration orders of
+        # a set with UNIQUE names (the Spec: emitted order independent of the permutation)?
+        found = None
+        for _ in range(2000):
+            n = rng.randint(2, 7)
+            keys = rng.sample(range(50), n)
+            perm = keys[:]
+            rng.shuffle(perm)
+
+            def names(order):
+                ts = [_FakeTensor(f"t{k:04d}", i) for i, k in enumerate(order)]
+                try:
+                    return [x[-1].name if isinstance(x, tuple) else getattr(x, "name", x) for x in eval(expr, {"sorted": sorted, "enumerate": enumerate, "set": set}, {"tensor_set": ts})]
+                except Exception as e:  # noqa: B902
+                    return "error:" + type(e).__name__
+            if names(keys) != names(perm):
+                found = (keys, perm, names(keys), names(perm))
+                break
+        if found:
+            ck.violation(f"the writer's tensor order depends on the iteration order even for unique names: {found[0]} vs {found[1]}",
+                         {"expression": expr, "order_1": found[0], "order_2": found[1], "emitted_1": found[2], "emitted_2": found[3]})
+        else:
+            ck.violation(f"writer sort expression and Model/Caches.emitOrder disagree on keys {bad[0]}: code {bad[1]}, model {bad[2]}",
+                         {"correspondence": "tflite_writer sorted(...) over tensor_set vs emitOrder", "expression": expr, "keys": bad[0],
+                          "code": bad[1], "model": bad[2]}, found_input=False)
+    return len(cases)
+
 
 
 def obs_token(o, what):
@@ -450,6 +541,7 @@ def main():
         cli_nets = [pool[i % len(pool)] for i in range(ncli)]
         hseeds = [0, 1] + [ck.rng.randrange(2, 1 << 32) for _ in range(nseeds - 2)]
         cli_jobs = [(list(spec), opts, hs, common._ext_dir) for spec, opts in cli_nets for hs in hseeds]
+    nsort = writer_sort_correspondence(ck, info)
     jobs = min(16, os.cpu_count() or 4)
     ctx = multiprocessing.get_context("fork")
     with ProcessPoolExecutor(jobs, mp_context=ctx) as ex:
@@ -476,6 +568,8 @@ def main():
                 ck.count("runs_with_cross_compilation_weight_cache_hit")
             if o["stale_addr"]:
                 ck.count("runs_assigning_an_address_to_an_identity_left_by_an_earlier_run")
+            if o.get("greedy_ties"):
+                ck.count("runs_with_indistinguishable_live_ranges_in_the_greedy_allocator")
             add(s["net"], s["opts"], o, {"scenario": sc, "step_index": j, "step": s, "fresh": j == 0})
         ck.count("shape_" + sc["shape"])
     for job, o in zip(cli_jobs, cli_results):
@@ -534,7 +628,7 @@ def main():
                 f" (ops={o['src_ops']})",
                 {"scenario": {"shape": sc["shape"], "steps": sc["steps"][:where["step_index"] + 1]}, "step": where["step"],
                  "compared": what, "reference": {k2: ref[k2] for k2 in ("status", "diag", "size", "digest", "figures", "debugdb")},
-                 "observed": {k2: o[k2] for k2 in ("status", "diag", "size", "digest", "figures", "debugdb", "stale_hits", "stale_addr", "tb")},
+                 "observed": {k2: o[k2] for k2 in ("status", "diag", "size", "digest", "figures", "debugdb", "stale_hits", "stale_addr", "greedy_ties", "tb")},
                  "lean_request": "detclass " + tok0 + " " + obs_token(o, what),
                  "how_to_replay": "./check C14 --replay <this file>  (runs the reference alone and the scenario, each in a fresh interpreter)"},
                 key=k)
@@ -551,7 +645,9 @@ def main():
                        "effective options) form a class whose (ending, output size, SHA-256, summary columns, debug database) the Lean "
                        "judge Determinism.agree must find identical. Props/C14 proves when the abstract process-state model is history "
                        "independent and exhibits the witnesses where the unchanged code is not.",
-        "evaluations": nsteps + len(cli_results),
+        "evaluations": nsteps + len(cli_results) + nsort,
+        "compilations_observed": nsteps + len(cli_results),
+        "writer_sort_cases": nsort,
         "distinct_nontrivial": nontrivial,
         "rule": "case = equivalence class (network spec, canonical effective options); non-trivial when it holds runs with at least two "
                 "different histories (position in a sequence / entry point / hash seed)",
